@@ -335,15 +335,15 @@ def unparseOpt (p : Nat → Bool) : Option Expr → Nat → List Out
   | some e, lvl => unparse p e lvl
 
 /-- the `keys.iter().zip(packed)` loop of `Expr::Dict` (for parser-built trees
-    `values.len() == keys.len()`, so the `unpacked` loop is empty).  Note `write!(self, "**{}", *v)`:
-    the value goes through `Display`, i.e. level `TEST`. -/
+    `values.len() == keys.len()`, so the `unpacked` loop is empty).  The operand of `**` is rendered
+    at `precedence::EXPR` (since /repo dc8e40d; before, it went through `Display`, level `TEST`). -/
 def unparseDictItems (p : Nat → Bool) : List DictItem → Bool → List Out
   | [], _ => []
   | .mk (some k) v :: is, first =>
     delim first ++ unparse p k Prec.TEST ++ [op .colon, .sp] ++ unparse p v Prec.TEST ++
       unparseDictItems p is false
   | .mk none v :: is, first =>
-    delim first ++ [op .dstar] ++ unparse p v Prec.TEST ++ unparseDictItems p is false
+    delim first ++ [op .dstar] ++ unparse p v Prec.EXPR ++ unparseDictItems p is false
 
 /-- the `ops.iter().zip(comparators)` loop of `Expr::Compare` -/
 def unparseCmps (p : Nat → Bool) : List CmpOp → List Expr → List Out
@@ -459,7 +459,7 @@ def slotLevel : Slot → Nat
   | .ifOrelse => Prec.TEST
   | .dictKey => Prec.TEST
   | .dictValue => Prec.TEST
-  | .dictUnpack => Prec.TEST
+  | .dictUnpack => Prec.EXPR
   | .setElt => Prec.TEST
   | .listElt => Prec.TEST
   | .tupleElt => Prec.TEST
